@@ -18,8 +18,80 @@ ASSUMPTIONS = ["CBDT format 17 small metrics (uint8 height/width/advance, int8 b
 N = {"quick": 3200, "thorough": 24000}
 
 
+N_CLI = {"quick": 8, "thorough": 64}
+
+
 def plan(tier, seed):
-    return [{"id": f"{seed}-{i}", "i": i} for i in range(N[tier])]
+    return [{"id": f"{seed}-{i}", "i": i} for i in range(N[tier])] + [{"id": f"{seed}-cli{i}", "i": i, "kind": "cli"} for i in range(N_CLI[tier])]
+
+
+def run_cli_case(case):
+    """The real bitmap pipeline (resvg -> pngquant wrapper -> zopflipng -> write_font under ninja): the image stored for
+    each source's glyph is byte-identical to the last PNG the build made for that source - whatever the artwork (flat
+    full-bleed swatches that quantise to a one-entry palette, gradients pngquant declines, ordinary shapes)."""
+    import shutil
+
+    from fontTools.ttLib import TTFont
+
+    from vf.checks import render_common as rc
+    from vf.drive import cli
+
+    r = common.rng(ID, "cli", case["seed"], case["i"])
+    fmt = ["cbdt", "sbix"][case["i"] % 2]
+    res = {"counters": {}, "maxes": {}, "violations": [], "tags": [fmt, "cli-lane"]}
+    c = res["counters"]
+    col = lambda: "#%02x%02x%02x" % (r.randint(0, 255), r.randint(0, 255), r.randint(0, 255))
+    arts = {
+        "swatch": lambda: f'<rect x="0" y="0" width="100" height="100" fill="{col()}"/>',
+        "stripes": lambda: f'<rect x="0" y="0" width="100" height="50" fill="{col()}"/><rect x="0" y="50" width="100" height="50" fill="{col()}"/>',
+        "shape": lambda: f'<circle cx="50" cy="50" r="{r.randint(20, 45)}" fill="{col()}"/><rect x="10" y="10" width="30" height="20" fill="{col()}" opacity="0.6"/>',
+        "rainbow": lambda: '<defs><linearGradient id="a" x1="0" y1="0" x2="1" y2="0"><stop offset="0" stop-color="#ff0000"/><stop offset="0.33" stop-color="#ffff00"/><stop offset="0.66" stop-color="#0066ff"/><stop offset="1" stop-color="#ff00aa"/></linearGradient></defs><rect x="2" y="2" width="96" height="96" fill="url(#a)"/>',
+        "black-swatch": lambda: '<rect x="0" y="0" width="100" height="100" fill="#000000"/>',
+    }
+    kinds = ["swatch"] + r.sample(sorted(arts), r.randint(1, 3))
+    r.shuffle(kinds)
+    files = []
+    for k, kind in enumerate(kinds):
+        files.append({"name": "emoji_u%x.svg" % (0x1F7E0 + k), "svg": f'<svg xmlns="http://www.w3.org/2000/svg" viewBox="0 0 100 100">{arts[kind]()}</svg>', "kind": kind})
+    root = common.mkscratch("c14cli-")
+    try:
+        src = root / "src"
+        cli.write_sources(src, files)
+        b = root / "build"
+        res_px = r.choice([32, 64, 128])
+        flags = ["--color_format", fmt, "--output_file", "Font.ttf", "--build_dir", str(b), "--bitmap_resolution", str(res_px)]
+        use_pq, use_zf = r.random() < 0.85, r.random() < 0.8
+        flags += ["--use_pngquant" if use_pq else "--nouse_pngquant", "--use_zopflipng" if use_zf else "--nouse_zopflipng"]
+        rcode, out = cli.nanoemoji(flags + sorted(f["name"] for f in files), src, cli.env_for(events=root / "ev.jsonl"), timeout=400)
+        c["cli_builds"] = 1
+        if rcode != 0:
+            res["violations"].append({"what": f"bitmap build of ordinary artwork failed (exit {rcode})", "kinds": kinds, "output": out[-1200:]})
+            return res
+        font = TTFont(str(b / "Font.ttf"), lazy=False)
+        last_dir = "zopflipng" if use_zf else ("pngquant" if use_pq else "bitmap")
+        for f in files:
+            stem = f["name"][:-4]
+            made = (b / last_dir / (stem + ".png")).read_bytes()
+            name = rc.reach(font, (int(stem.split("_u")[1], 16),))
+            ctx = {"source": f["name"], "artwork": f["kind"], "format": fmt, "pngquant": use_pq, "zopflipng": use_zf}
+            if len(name) != 1:
+                res["violations"].append(dict(ctx, what="codepoint does not shape to one glyph"))
+                continue
+            if fmt == "cbdt":
+                datas = [bytes(sd[name[0]].imageData) for sd in font["CBDT"].strikeData if name[0] in sd]
+            else:
+                datas = [bytes(st.glyphs[name[0]].imageData) for st in font["sbix"].strikes.values() if name[0] in st.glyphs and st.glyphs[name[0]].imageData]
+            c["cli_bitmaps_checked"] = c.get("cli_bitmaps_checked", 0) + 1
+            c["cli_artwork." + f["kind"]] = c.get("cli_artwork." + f["kind"], 0) + 1
+            if len(datas) != 1:
+                res["violations"].append(dict(ctx, what=f"glyph carries {len(datas)} images although the build made {last_dir}/{stem}.png ({len(made)} bytes)"))
+            elif datas[0] != made:
+                res["violations"].append(dict(ctx, what=f"stored image differs from {last_dir}/{stem}.png"))
+        res["nontrivial"] = True
+        res["key"] = common.sha([kinds, flags[:8], case["i"]])
+    finally:
+        shutil.rmtree(root, ignore_errors=True)
+    return res
 
 
 def gen_case(case):
@@ -61,6 +133,8 @@ def gen_case(case):
 
 
 def run_case(case):
+    if case.get("kind") == "cli":
+        return run_cli_case(case)
     from vf.checks import c04
     from vf.checks import render_common as rc
     from vf.drive import inproc
@@ -201,6 +275,8 @@ def finish(agg):
     for k in ("cbdt", "sbix", "proportional", "nonsquare-fixed", "square-wide-advance", "refused"):
         if t.get(k, 0) == 0:
             inc.append(f"class never exercised: {k}")
+    if agg["counters"].get("cli_bitmaps_checked", 0) == 0:
+        inc.append("CLI bitmap lane never compared an image")
     if agg["counters"].get("cblc_multi_run_fonts", 0) == 0:
         inc.append("no CBDT font with a glyph id gap")
     return {"inconclusive": inc}
